@@ -3104,6 +3104,7 @@ func c15Exec(r *sim.Run, sci interface{}) {
 
 	// wait for quiescence
 	idle, calm, lastProg := 0, 0, -1
+	quiet := false // the run came to rest (the oracle judges at quiescence)
 	for it := 0; it < 1500; it++ {
 		r.Sleep(300 * time.Millisecond)
 		if r.Aborted() {
@@ -3133,11 +3134,13 @@ func c15Exec(r *sim.Run, sci interface{}) {
 		}
 		idle++
 		if idle >= 21 {
+			quiet = true
 			break
 		}
 		if h.satisfied() {
 			calm++
 			if calm >= 3 {
+				quiet = true
 				break
 			}
 		} else {
@@ -3145,7 +3148,14 @@ func c15Exec(r *sim.Run, sci interface{}) {
 		}
 	}
 	if !r.Aborted() && !h.locked {
-		h.evaluate()
+		if quiet {
+			h.evaluate()
+		} else {
+			// 1500 polls (7.5 min of virtual time) and still packets in motion: a
+			// backlog of retransmissions on a link slower than the resend rate.
+			// Nothing can be said about obligations that are still open.
+			r.Probe("mqtt.run_cut_off_before_quiescence")
+		}
 	}
 
 	// coverage
